@@ -421,10 +421,33 @@ matrix_under_test(const Ctx& c)
   return vp::make_matrix(c.mopts, m["s90"], m["s180"], m["swap_seg"], m["swap_s"], m["shift_z"], m["cache"], m["only_basic"]);
 }
 
-void
-fill_projdata(const Ctx& c, ProjDataInMemory& pd, const std::vector<double>& v)
+// The explicit P of the reference: rows from a FRESH matrix object with caching disabled and the same symmetry
+// switches as the matrix the projectors under test use.  (Rows computed with and without symmetries are not
+// always equal -- that is C03's subject, see work/notes/C05_findings.md "C03 lead" -- and C05 is about what the
+// likelihood does with the matrix its projectors use.)
+vp::ExplicitP
+build_P(const Ctx& c, const shared_ptr<const ProjDataInfo>& pdi, const shared_ptr<const VoxelsOnCartesianGrid<float>>& image)
 {
-  c.P.vec_to_projdata(pd, v);
+  vp::ExplicitP P;
+  P.pdi = pdi;
+  P.image = image;
+  image->get_regular_range(P.imin, P.imax);
+  P.nz = P.imax[1] - P.imin[1] + 1;
+  P.ny = P.imax[2] - P.imin[2] + 1;
+  P.nx = P.imax[3] - P.imin[3] + 1;
+  const json& m = c.msw;
+  shared_ptr<ProjMatrixByBinUsingRayTracing> mat
+      = vp::make_matrix(c.mopts, m["s90"], m["s180"], m["swap_seg"], m["swap_s"], m["shift_z"], false, false);
+  mat->set_up(pdi, image);
+  vp::ExplicitP::enumerate_bins(*pdi, P.bins);
+  P.rows.resize(P.bins.size());
+  ProjMatrixElemsForOneBin row;
+  for (std::size_t i = 0; i < P.bins.size(); ++i)
+    {
+      mat->get_proj_matrix_elems_for_one_bin(row, P.bins[i]);
+      P.rows[i] = vp::ExplicitP::clip_row(P, row, &P.num_clipped);
+    }
+  return P;
 }
 
 // float-rounded random vector
@@ -472,13 +495,13 @@ build_ctx(const json& c, Ctx& x)
 
   shared_ptr<const ProjDataInfo> pdi_c = x.pdi;
   shared_ptr<const VoxelsOnCartesianGrid<float>> im_c = x.proto;
-  x.P = vp::ExplicitP::build(pdi_c, im_c, x.mopts);
+  x.P = build_P(x, pdi_c, im_c);
   const std::size_t nb = std::size_t(x.P.nbins());
   x.have_P0 = x.tof && !x.tofsens_eff;
   if (x.have_P0)
     {
       shared_ptr<const ProjDataInfo> pdi0 = x.pdi->create_non_tof_clone();
-      x.P0 = vp::ExplicitP::build(pdi0, im_c, x.mopts);
+      x.P0 = build_P(x, pdi0, im_c);
     }
 
   // --- subset membership: documented as "determined as per detail::find_basic_vs_nums_in_subset()" with the
